@@ -15,7 +15,7 @@ def compat_spec(a, b):
 ''')
 
 contract("bond.BondDescriptor.is_compatible",
-         props=["C03", "C04", "C16", "C17"],
+         props=["C03"],
          params=dict(self=Ref("BondDescriptor"), other=Ref("BondDescriptor")),
          returns=BOOL,
          ensures=["result == compat_spec(self, other)"],
